@@ -155,6 +155,32 @@ def run(chk):
         rnd = "".join(chk.rng.choice(string.printable[:95] + "\n\t") for _ in range(chk.rng.randint(0, 60)))
         one(rnd, "random", False)
         one('version: "3"\n' + rnd, "random-after-preamble", False)
+    # one process, one path, two revisions of a module: what the first (erroneous) revision left behind must not be cited for the
+    # second one - the second parse answers for the text that is there now
+    work2 = common.scratch_dir("verif_c11r_")
+    try:
+        for q in range(8 if quick else 60):
+            mod_items = printer.gen_items(chk.rng, prefix="M_", allow_services=False)
+            good = printer.render(printer.tokens(mod_items))
+            bad = good + "\n" * chk.rng.randint(3, 30) + chk.rng.choice(["struct Broken { x @0: NoSuchType, }\n", "struct Broken { x @0: u8, x @1: Gain, }\n"])
+            importer = 'version: "3"\nmod sensors;\nstruct Z { z @0: u8, }\n'
+            wd = f"{work2}/r{q}"
+            first = front_run.run_front({"main.fcp": importer, "sensors.fcp": bad}, workdir=wd)
+            second = front_run.run_front({"main.fcp": importer, "sensors.fcp": good}, workdir=wd)
+            key = json.dumps([bad, good])
+            chk.count(key, nontrivial=True, sample={"input": key[:300], "kind": "module-rewritten", "outcome": second[0]})
+            chk.hist("kind", "module-rewritten"); chk.hist("outcome:module-rewritten", first[0] + "->" + second[0])
+            files2 = {"main.fcp": importer, "sensors.fcp": good}
+            if second[0] == "raise":
+                fails.append({"kind": "exception-escaped", "source": key, "files": files2, "input_kind": "module-rewritten (second parse of the same paths in one process)",
+                              "first_revision_of_sensors.fcp": bad, "exception": second[1][:300]})
+            elif second[0] == "err":
+                why = cited_lines_exist(second[1], files2)
+                fails.append({"kind": "diagnostic-cites-a-line-that-does-not-exist" if why else "valid-text-rejected-after-an-earlier-erroneous-revision", "source": key, "files": files2,
+                              "input_kind": "module-rewritten", "first_revision_of_sensors.fcp": bad, "why": why or second[1][:300]})
+    finally:
+        import shutil as _sh
+        _sh.rmtree(work2, ignore_errors=True)
     # "parsing terminates": inputs on which a regular-expression or Earley engine could take exponential time are parsed in a child
     # process with a time limit (a stuck `re` call cannot be interrupted from inside the interpreter): a text that ends inside a long
     # block comment / string / run of one character, after a valid beginning
